@@ -1386,6 +1386,19 @@ def check_C17(tier, seed):
             return digest(q["cond"])
         return None
     def extra(qc, rng, quick):
+        # the parents of the concatenation are the solutions of a sub-query and the candidate is bound first: the sub-query
+        # (disjunctions, a conjunction that starts with a bare attribute) is evaluated again for every candidate - many
+        # worlds each, what goes wrong there goes wrong from the second or third candidate on
+        run = qc.run
+        subp = run.export("GenQuery", "G7c-subparents", "PROG", constants=dict(G="G7c", NV=2, LeafLimit=60, MaxLeaves=1, MaxNot=1,
+                                                                              NeedNot=False), count=False)
+        subp = [p for p in subp if count_nodes(p["cond"], "sub") > 0]
+        for p in subp:
+            for _ in range(40 if quick else 600):
+                W = datasets.random_world(rng, rng.randint(3, 6))
+                doms = datasets.domains_for(rng, W, 2, maxdom=5)
+                doms[1] = rng.sample(range(1, len(W["objs"]) + 1), min(len(W["objs"]), rng.randint(3, 5)))
+                qc.add(W, [mk_query(p, doms)], [drain_ev(), drain_ev(1, eqto=1)], tag="sub-query-parents")
         # concatenate(e) selected: exactly one row, the list of everything in domain order and inner order - selected
         # through entity or set_of (alone or next to a free variable), e over a variable or over a sub-query (which
         # restricts the parents), evaluated repeatedly under both cache configurations
